@@ -50,6 +50,16 @@ theorem cValue_do_o (fuel : Nat) (opts : Fopts) (ht : opts.tail = false) (hh : o
     simp only [Bool.false_eq_true, if_false, Option.pure_def, Option.bind_eq_bind, Option.bind_some]
     exact (congrArg (fin c.cur) h).symm
 
+/-- `janetc_upscope`: the body in the current scope -/
+theorem cValue_upscope_o (fuel : Nat) (opts : Fopts) (ht : opts.tail = false) (hh : opts.hint = none) (body : List Expr) (p : Pos) (c : CState) :
+    cValue (fuel + 1) opts (.form (.sym "upscope" :: body) p) c = fin c.cur (doBody (cValue fuel) opts body (curAt c p)) := by
+  simp only [cValue, ht, hh]
+  split
+  · rename_i h; exact (congrArg (fin c.cur) h).symm
+  · rename_i r c1 h
+    simp only [Bool.false_eq_true, if_false, Option.pure_def, Option.bind_eq_bind, Option.bind_some]
+    exact (congrArg (fin c.cur) h).symm
+
 /-- `janetc_def` with a symbol pattern in a local scope -/
 def cDef (rec' : Fopts → Expr → CState → Option (JSlot × CState)) (name : String) (v : Expr) (c : CState) : Option (JSlot × CState) :=
   if curTop c then none else do
@@ -74,6 +84,10 @@ theorem eval_do (n : Nat) (cur : Pos) (env : Env) (body : List Expr) (p : Pos) (
        | .ok (v, _) s' => .ok (v, env) s'
        | r => r) := by
   simp only [eval] <;> rfl
+
+theorem eval_upscope (n : Nat) (cur : Pos) (env : Env) (body : List Expr) (p : Pos) (s : SS) :
+    eval (n + 1) cur env (.form (.sym "upscope" :: body) p) s = evalSeq n (posOf cur p) env body s := by
+  simp only [eval]
 
 theorem eval_def (n : Nat) (cur : Pos) (env : Env) (x : String) (ve : Expr) (p : Pos) (s : SS) :
     eval (n + 1) cur env (.form [.sym "def", .sym x, ve] p) s =
